@@ -6,6 +6,7 @@ import DadiVerif.Lemmas.DemesUnits
 import DadiVerif.Generated.Admix
 import DadiVerif.Generated.DemesProg
 import DadiVerif.Lemmas.DemesProgWiring
+import DadiVerif.Lemmas.DemesProgParams
 /-!
 # C16 — demes graphs vs native dadi models: units, wiring, order, export
 
@@ -904,6 +905,63 @@ theorem C16_integrate_wiring {ν : Type} (d : ℕ) (phi : Trace ν) (p : IntegPa
 /-- non-vacuity: three populations, the third frozen, an asymmetric matrix -/
 example : Gen.DemesProg.integratePhi ([] : Trace ℕ) { nu := [7, 8, 9], T := 1/4, M := [[0, 12, 13], [21, 0, 23], [31, 32, 0]], gamma := [0, 0, 0], h := [1/2, 1/2, 1/2], theta := 1, frozen := [false, false, true] } [⟨0, []⟩, ⟨1, []⟩, ⟨2, []⟩]
     = some [PCall.integrate { fn := "three_pops", T := 1/4, nu := [7, 8, 9], m := [[0, 12, 13], [21, 0, 23], [31, 32, 0]], gamma := [0, 0, 0], h := [1/2, 1/2, 1/2], theta := 1, frozen := [false, false, true], ids := [⟨0, []⟩, ⟨1, []⟩, ⟨2, []⟩] }] := by
+  decide +kernel
+
+/-- the generated formulas under a division of the reference size (the facts `Lemmas/DemesProgParams.lean` needs, proved from their text) -/
+theorem neFacts (ex lg : ℚ → ℚ) (pw : ℚ → ℚ → ℚ) : NeFacts ex lg pw := by
+  have hd : ∀ x Ne c : ℚ, x / (Ne / c) = c * (x / Ne) := by
+    intro x Ne c
+    rw [div_div_eq_mul_div, mul_comm x c, mul_div_assoc]
+  refine ⟨?_, ?_, ?_, ?_, ?_, ?_⟩
+  · intro i0 i1 Ne c _
+    unfold intTime
+    split_ifs
+    · simp
+    · exact hd _ _ _
+  · intro Ne m c hc
+    unfold migEntry
+    field_simp
+  · intro N0 Ne c _
+    simp only [nuConstList, Sym.eval, hd]
+  · intro N0 NF Ne T t c _
+    simp only [nuConstFn, Sym.eval, hd]
+  · intro N0 NF Ne T t c hc
+    simp only [nuLinear, Sym.eval, hd, mul_div_mul_left _ _ hc]
+    ring
+  · intro N0 NF Ne T t c hc
+    simp only [nuExp, Sym.eval, hd, mul_div_mul_left _ _ hc]
+    ring
+
+/-- **The user's `Ne` reaches every place a size, a time or a rate is scaled.**  `_get_integration_parameters` (the generated program) called
+    with the reference size `Ne / c` instead of `Ne` — same graph, same `demes_present`, same frozen list — returns: every integration time
+    `c` times larger, every entry of every migration matrix `c` times smaller, every relative size `c` times larger (at every fraction of
+    every integration time: constant, linear and exponential size functions, the infinite root epoch whose size seeds `phi_1D`, and the
+    frozen branches of ancient samples, whose absolute size is 1), the frozen flags unchanged, and it raises in the same cases; with
+    `Ne = None` it works with `_get_root_Ne(g)`.  This is the C03 re-scaling of the whole program (`C16_units_Ne` for one quantity), which
+    holds only if `Ne` is passed on to `_make_nu_func`, to `T` and to the migration matrix alike (seeded/C16-7 scaled the migration
+    matrix by the root size). -/
+theorem C16_ne_threaded (ex lg : ℚ → ℚ) (pw : ℚ → ℚ → ℚ) {c : ℚ} (hc : c ≠ 0) (g : Graph InEpoch) (dp : PyDD (ETime × ETime) DName)
+    (fz : List DName) (Ne frac : ℚ) :
+    (Gen.DemesProg.getIntegrationParameters g dp fz (some (Ne / c))).map (evalParams ex lg pw frac)
+      = ((Gen.DemesProg.getIntegrationParameters g dp fz (some Ne)).map (evalParams ex lg pw frac)).map (scaleParams c)
+    ∧ Gen.DemesProg.getIntegrationParameters g dp fz none = (rootNe g).bind fun n => Gen.DemesProg.getIntegrationParameters g dp fz (some n) := by
+  have hrow : migRowIsDest = true := by decide
+  have hentry : ∀ Ne m : ℚ, migEntry Ne m = (2 * Ne) * m := fun _ _ => rfl
+  rw [C16_source_integration_parameters]
+  refine ⟨getIntegrationParametersRef_ne (neFacts ex lg pw) hrow hentry hc g dp fz Ne frac, ?_⟩
+  rw [getIntegrationParametersRef_eq hrow hentry]
+  cases h : rootNe g with
+  | none => simp [neOf, h]
+  | some n => simp [neOf, h, getIntegrationParametersRef_eq hrow hentry]
+
+/-- non-vacuity: `exGraph` (a linear deme, a migration) with its two intervals, reference sizes 100 and 50 -/
+private def exDp : PyDD (ETime × ETime) DName := [((none, some 20), [⟨0, []⟩]), ((some 20, some 0), [⟨1, []⟩, ⟨2, []⟩])]
+
+example :
+    ((Gen.DemesProg.getIntegrationParameters exGraph exDp [] (some 100)).map fun q => (evalParams id id (fun x _ => x) (1/2) q).1) = some [[1], [1, 4/5]]
+    ∧ ((Gen.DemesProg.getIntegrationParameters exGraph exDp [] (some 100)).map fun q => (q.2.1, q.2.2.1)) = some ([[[0]], [[0, 0], [2, 0]]], [0, 1/10])
+    ∧ ((Gen.DemesProg.getIntegrationParameters exGraph exDp [] (some 50)).map fun q => (evalParams id id (fun x _ => x) (1/2) q).1) = some [[2], [2, 8/5]]
+    ∧ ((Gen.DemesProg.getIntegrationParameters exGraph exDp [] (some 50)).map fun q => (q.2.1, q.2.2.1)) = some ([[[0]], [[0, 0], [1, 0]]], [0, 1/5]) := by
   decide +kernel
 
 end DadiVerif
